@@ -165,14 +165,36 @@ func VC14Sweeten3() { vCheckSweeten(vrt.IntRange("n", 0, 3)) }
 //verif: prop=C14 tier=thorough bounds="argument lists of length 4 and 5"
 func VC14Sweeten5() { vCheckSweeten(vrt.IntRange("n", 4, 5)) }
 
+// vFmtErr formats itself: fmt prints "E42: boom", Error() alone says "boom".
+type vFmtErr struct{ code int }
+
+func (e vFmtErr) Error() string { return "boom" }
+func (e vFmtErr) Format(s fmt.State, verb rune) {
+	fmt.Fprintf(s, "E%d: boom", e.code)
+}
+
+type vPtrErr struct{ msg string }
+
+func (e *vPtrErr) Error() string { return e.msg }
+
+type vStr14 struct{ s string }
+
+func (v vStr14) String() string { return "<" + v.s + ">" }
+
 // Messages of the print-, printf- and println-style methods.
 //
-//verif: prop=C14 bounds="Info/Infof/Infoln (and Debug/Warn/Error variants) with 0..2 arguments from {symbolic 1-byte string, symbolic int64, error, nil}: message equals fmt.Sprint / fmt.Sprintf(template,...) (template verbatim without arguments) / fmt.Sprintln minus the newline, as computed by the same formatter"
+//verif: prop=C14 bounds="Info/Infof/Infoln (and Debug/Warn/Error variants) with 0..2 arguments from {symbolic 1-byte string, symbolic int64, error, nil, error implementing fmt.Formatter, typed-nil pointer error, fmt.Stringer}: message equals fmt.Sprint / fmt.Sprintf(template,...) (template verbatim without arguments) / fmt.Sprintln minus the newline, as computed by the same formatter"
 func VC14Messages() {
 	n := vrt.Choice("n", 3)
 	var args []interface{}
 	for i := 0; i < n; i++ {
-		switch vrt.Choice(vName("a", i), 4) {
+		switch vrt.Choice(vName("a", i), 7) {
+		case 4:
+			args = append(args, vFmtErr{code: 42}) // an error that is also a fmt.Formatter
+		case 5:
+			args = append(args, (*vPtrErr)(nil)) // typed nil error whose Error method dereferences
+		case 6:
+			args = append(args, vStr14{s: "str"}) // a fmt.Stringer
 		case 0:
 			args = append(args, "s"+vrt.String(vName("s", i), 1))
 		case 1:
@@ -207,6 +229,7 @@ func VC14Messages() {
 	}
 	vrt.Assert("one-entry", len(core.st.writes) == 1)
 	if len(core.st.writes) == 1 {
+		vrt.Observe("message", core.st.writes[0].ent.Message)
 		vrt.Assert("message-as-formatted", core.st.writes[0].ent.Message == want)
 	}
 }
